@@ -341,7 +341,8 @@ def playback(h, ktarget, only=None):
                 if txt2 != txt:
                     open(fp, 'w').write(txt2)
                     txt = txt2
-                for m in re.finditer(r'/// Check for `(?!cover)[^\n]*\n\s*\n?\s*#\[test\]\s*fn (kani_concrete_playback_\w+)\(\) \{.*?\n\s*\}', txt, re.S):
+                # (harnesses with stubs get an extra `# Warning` doc block between the "Check for" line and #[test])
+                for m in re.finditer(r'/// Check for `(?!cover)[^\n]*\n(?:[ \t]*///[^\n]*\n|[ \t]*\n)*[ \t]*#\[test\]\s*fn (kani_concrete_playback_\w+)\(\) \{.*?\n\s*\}', txt, re.S):
                     tests.append((m.group(1), m.group(0)))
         if not tests:
             return None
